@@ -9,7 +9,9 @@ RULE = ("cloud cases: 2-200 atoms of elements C,N,O,S,H,F,Cl,P,Zn on the 0.001 A
         "face/edge/corner at threshold +- {0.001..0.01} A for H-X, X-Y and S-S, atom 1 at "
         "0-0.3 A from the boundary, cells with negative, zero, positive and large indices; "
         "cys cases: two real CYS residues with SG-SG at 2.5 +- d through propka.run.single; "
-        "pose cases: whole proteins in lattice poses. Deciding monitor: contract on "
+        "tie cases: pairs at exactly 1.5 / 2.0 / 2.5 A on multiples of 0.125 A (exact arithmetic, strict rule); "
+        "pose cases: whole proteins in lattice poses; every conformation with a bridged CYS: total charge at "
+        "four pH values = sum over the titrating groups. Deciding monitor: contract on "
         "BondMaker.find_bonds_for_atoms_using_boxes against an O(n^2) reference. A case is "
         "non-trivial when the reference contains >= 1 bond whose atoms lie in different cells.")
 EXPLANATION = "26/26 neighbour directions must be observed with reference bonds for a held verdict"
